@@ -241,6 +241,16 @@ pub fn run(ctx: &Ctx) -> i32 {
     let mut distinct = 0u64;
     let mut per_kind = Vec::new();
     for kind in &kinds {
+        if per_kind.len() % 13 == 2 {
+            let stream = vec![2u8, 0, 2, nsym - 1, 0];
+            let a = run_stream(kind, &stream, nsym, &Mode::Chunks(0b0010));
+            let mut set = stream.clone();
+            set.sort();
+            set.dedup();
+            let r = run_stream(kind, &set, nsym, &Mode::ItemWise);
+            ctx.sample(json!({"sketcher": kind.name, "stream_symbols": stream, "chunking_mask": 2, "equal_to_canonical_stream": a == r,
+                "sketch_head": a.as_ref().ok().map(|v| v.iter().take(4).map(|w| format!("{:#x}", w)).collect::<Vec<_>>())}));
+        }
         let o = check_kind(kind, nsym, maxlen, chunk_maxlen);
         execs += o.execs;
         groups += o.groups;
